@@ -6,10 +6,12 @@ use std::sync::Arc;
 use llfree::LLFree;
 
 use crate::crash::Crash;
-use crate::exec::{Arenas, Call, ClassKind, Config, ErrKind, Outcome, create, exec, guarded, panic_signature};
+use crate::exec::{
+    Arenas, Call, ClassKind, Config, ErrKind, Outcome, create, exec, guarded, panic_signature,
+};
 use crate::json::J;
 use crate::model::{Block, HUGE_FRAMES, HUGE_ORDER, Model, TREE_FRAMES, TREE_HUGE, TREE_ORDER};
-use crate::oracle::{Props, Violation, check_views, class_permitted, compare_frames};
+use crate::oracle::{Props, Violation, check_views, class_permitted, compare_frames, tree_snapshot};
 use crate::rng::{Hasher, Rng};
 use crate::world::{AbortReason, Probes, Shared, Strategy, ThreadCtx, World, enter, leave, masked};
 
@@ -38,9 +40,13 @@ pub enum SOp {
         class: u8,
     },
     /// take tree `tree` offline if it is entirely free
-    Offline { tree: usize },
+    Offline {
+        tree: usize,
+    },
     /// bring the tree this thread took offline back online
-    OnlineOwn { class: Option<u8> },
+    OnlineOwn {
+        class: Option<u8>,
+    },
 }
 
 fn opt_u(j: Option<&J>) -> Option<usize> {
@@ -50,13 +56,23 @@ fn opt_u(j: Option<&J>) -> Option<usize> {
 impl SOp {
     pub fn to_json(&self) -> J {
         match self {
-            SOp::Get { order, class, slot, target } => J::obj()
+            SOp::Get {
+                order,
+                class,
+                slot,
+                target,
+            } => J::obj()
                 .set("op", "get")
                 .set("order", *order)
                 .set("class", *class)
                 .set("slot", *slot)
                 .set("target", *target),
-            SOp::PutHeld { k, sub, class, slot } => J::obj()
+            SOp::PutHeld {
+                k,
+                sub,
+                class,
+                slot,
+            } => J::obj()
                 .set("op", "put_held")
                 .set("k", *k)
                 .set("sub_order", sub.map(|s| s.0))
@@ -64,7 +80,12 @@ impl SOp {
                 .set("class", *class)
                 .set("slot", *slot),
             SOp::Drain => J::obj().set("op", "drain"),
-            SOp::Reclass { id, mclass, mfree, class } => J::obj()
+            SOp::Reclass {
+                id,
+                mclass,
+                mfree,
+                class,
+            } => J::obj()
                 .set("op", "reclass")
                 .set("id", *id)
                 .set("mclass", *mclass)
@@ -95,8 +116,12 @@ impl SOp {
                 mfree: j.gu("mfree") as usize,
                 class: j.gu("class") as u8,
             },
-            "offline" => SOp::Offline { tree: j.gu("tree") as usize },
-            "online_own" => SOp::OnlineOwn { class: opt_u(j.get("class")).map(|x| x as u8) },
+            "offline" => SOp::Offline {
+                tree: j.gu("tree") as usize,
+            },
+            "online_own" => SOp::OnlineOwn {
+                class: opt_u(j.get("class")).map(|x| x as u8),
+            },
             _ => return None,
         })
     }
@@ -137,6 +162,11 @@ pub struct ConcCase {
     /// strategy that takes over when the explicit schedule is used up (evolved cases:
     /// recorded prefix + seeded tail); None = stay on the current thread
     pub tail: Option<Strategy>,
+    /// after the base run, enumerate every PCT schedule of depth 1: each priority order of the
+    /// threads x each step at which the running thread is demoted below all others
+    pub pct_sweep: bool,
+    /// explicit initial PCT priorities (sweep runs); empty = shuffled from the schedule seed
+    pub prio: Vec<u32>,
 }
 
 fn strategy_to_json(s: &Strategy) -> J {
@@ -158,8 +188,12 @@ fn strategy_from_json(j: &J) -> Strategy {
         "pct" => Strategy::Pct {
             change: j.garr("change").iter().filter_map(J::u).collect(),
         },
-        "burst" => Strategy::Burst { den: j.gu("den") as usize },
-        "after_write" => Strategy::AfterWrite { den: j.gu("den") as usize },
+        "burst" => Strategy::Burst {
+            den: j.gu("den") as usize,
+        },
+        "after_write" => Strategy::AfterWrite {
+            den: j.gu("den") as usize,
+        },
         "stall" => Strategy::Stall {
             tid: j.gu("tid") as usize,
             from: j.gu("from"),
@@ -207,7 +241,10 @@ impl ConcCase {
             .set("config", self.cfg.to_json())
             .set("buffers_at_end_guard", self.at_end)
             .set("lower_fill", self.lower_fill)
-            .set("setup", J::Arr(self.setup.iter().map(Call::to_json).collect()))
+            .set(
+                "setup",
+                J::Arr(self.setup.iter().map(Call::to_json).collect()),
+            )
             .set(
                 "deals",
                 J::Arr(
@@ -216,7 +253,12 @@ impl ConcCase {
                         .map(|d| {
                             J::obj().set("k", d.k).set("order", d.order).set(
                                 "parts",
-                                J::Arr(d.parts.iter().map(|p| J::Arr(vec![J::from(p.0), J::from(p.1)])).collect()),
+                                J::Arr(
+                                    d.parts
+                                        .iter()
+                                        .map(|p| J::Arr(vec![J::from(p.0), J::from(p.1)]))
+                                        .collect(),
+                                ),
                             )
                         })
                         .collect(),
@@ -241,7 +283,12 @@ impl ConcCase {
                     .set("casfail_at", self.casfail_at.clone())
                     .set(
                         "solo",
-                        J::Arr(self.solo.iter().map(|p| J::Arr(vec![J::from(p.0), J::from(p.1)])).collect()),
+                        J::Arr(
+                            self.solo
+                                .iter()
+                                .map(|p| J::Arr(vec![J::from(p.0), J::from(p.1)]))
+                                .collect(),
+                        ),
                     ),
             )
             .set(
@@ -254,6 +301,8 @@ impl ConcCase {
                 ),
             )
             .set("solo_sweep", self.solo_sweep)
+            .set("pct_sweep", self.pct_sweep)
+            .set("pct_priorities", J::Arr(self.prio.iter().map(|p| J::from(*p)).collect()))
             .set("tail_strategy", self.tail.as_ref().map(strategy_to_json))
     }
     pub fn from_json(j: &J) -> Option<Self> {
@@ -274,30 +323,60 @@ impl ConcCase {
                 .map(|d| Deal {
                     k: d.gu("k") as usize,
                     order: d.gu("order") as usize,
-                    parts: d.garr("parts").iter().filter_map(pair).map(|(a, b)| (a as usize, b as usize)).collect(),
+                    parts: d
+                        .garr("parts")
+                        .iter()
+                        .filter_map(pair)
+                        .map(|(a, b)| (a as usize, b as usize))
+                        .collect(),
                 })
                 .collect(),
             programs: j
                 .garr("programs")
                 .iter()
-                .map(|p| p.arr().map(|a| a.iter().filter_map(SOp::from_json).collect()).unwrap_or_default())
+                .map(|p| {
+                    p.arr()
+                        .map(|a| a.iter().filter_map(SOp::from_json).collect())
+                        .unwrap_or_default()
+                })
                 .collect(),
             strategy: strategy_from_json(j.get("strategy")?),
             sched_seed: j.gu("sched_seed"),
             schedule: unrle(j.garr("schedule_rle")),
             casfail_den: faults.gu("casfail_den") as usize,
-            casfail_at: faults.get("casfail_at").and_then(J::arr).map(|a| a.iter().filter_map(J::u).collect()),
-            solo: faults.garr("solo").iter().filter_map(pair).map(|(a, b)| (a, b as usize)).collect(),
+            casfail_at: faults
+                .get("casfail_at")
+                .and_then(J::arr)
+                .map(|a| a.iter().filter_map(J::u).collect()),
+            solo: faults
+                .garr("solo")
+                .iter()
+                .filter_map(pair)
+                .map(|(a, b)| (a, b as usize))
+                .collect(),
             final_probes: j
                 .garr("final_probes")
                 .iter()
                 .filter_map(|e| {
                     let a = e.arr()?;
-                    Some((a.first()?.u()? as usize, a.get(1)?.u()? as usize, a.get(2)?.u()? as u8))
+                    Some((
+                        a.first()?.u()? as usize,
+                        a.get(1)?.u()? as usize,
+                        a.get(2)?.u()? as u8,
+                    ))
                 })
                 .collect(),
             solo_sweep: j.get("solo_sweep").and_then(J::b).unwrap_or(false),
-            tail: j.get("tail_strategy").filter(|t| t.get("kind").is_some()).map(strategy_from_json),
+            tail: j
+                .get("tail_strategy")
+                .filter(|t| t.get("kind").is_some())
+                .map(strategy_from_json),
+            pct_sweep: j.get("pct_sweep").and_then(J::b).unwrap_or(false),
+            prio: j
+                .get("pct_priorities")
+                .and_then(J::arr)
+                .map(|a| a.iter().filter_map(J::u).map(|x| x as u32).collect())
+                .unwrap_or_default(),
         })
     }
 }
@@ -353,6 +432,8 @@ struct Judge {
     history: Vec<CallRec>,
     /// per tree: (step at which Offline returned, owning thread)
     offline: Vec<Option<(u64, usize)>>,
+    /// trees that were reserved by a slot when the threads started
+    reserved: Vec<usize>,
     stats: ConcStats,
 }
 impl Judge {
@@ -373,15 +454,25 @@ pub struct ConcRunner<'a> {
     pub props: Props,
 }
 
-fn resolve(op: &SOp, held: &[Block], cfg: &Config, my_offline: Option<usize>) -> Option<Call> {
+fn resolve(op: &SOp, held: &[Block], cfg: &Config, my_offline: Option<usize>, reserved: &[usize]) -> Option<Call> {
     match op {
-        SOp::Get { order, class, slot, target } => Some(Call::Get {
+        SOp::Get {
+            order,
+            class,
+            slot,
+            target,
+        } => Some(Call::Get {
             target: *target,
             order: *order,
             class: *class,
             slot: *slot,
         }),
-        SOp::PutHeld { k, sub, class, slot } => {
+        SOp::PutHeld {
+            k,
+            sub,
+            class,
+            slot,
+        } => {
             if held.is_empty() {
                 return None;
             }
@@ -401,7 +492,12 @@ fn resolve(op: &SOp, held: &[Block], cfg: &Config, my_offline: Option<usize>) ->
             })
         }
         SOp::Drain => Some(Call::Drain),
-        SOp::Reclass { id, mclass, mfree, class } => Some(Call::Change {
+        SOp::Reclass {
+            id,
+            mclass,
+            mfree,
+            class,
+        } => Some(Call::Change {
             id: *id,
             mclass: *mclass,
             mfree: *mfree,
@@ -409,10 +505,19 @@ fn resolve(op: &SOp, held: &[Block], cfg: &Config, my_offline: Option<usize>) ->
             op: 0,
         }),
         SOp::Offline { tree } => {
+            // OFFLINE_RESERVED + k: the k-th tree that a slot had reserved when the threads started
+            let tree = &match tree.checked_sub(OFFLINE_RESERVED) {
+                Some(k) if !reserved.is_empty() => reserved[k % reserved.len()],
+                Some(k) => k % cfg.trees().max(1),
+                None => *tree,
+            };
             if my_offline.is_some() || *tree >= cfg.trees() {
                 return None;
             }
-            let len = cfg.frames.saturating_sub(tree * TREE_FRAMES).min(TREE_FRAMES);
+            let len = cfg
+                .frames
+                .saturating_sub(tree * TREE_FRAMES)
+                .min(TREE_FRAMES);
             Some(Call::Change {
                 id: Some(*tree),
                 mclass: None,
@@ -447,8 +552,11 @@ fn thread_main(
         if shared.lock().aborted.is_some() {
             break;
         }
-        let cfg = judge.lock().unwrap().cfg.clone();
-        let Some(call) = resolve(op, &held, &cfg, my_offline) else {
+        let (cfg, reserved) = {
+            let j = judge.lock().unwrap();
+            (j.cfg.clone(), j.reserved.clone())
+        };
+        let Some(call) = resolve(op, &held, &cfg, my_offline, &reserved) else {
             continue;
         };
         if !call.args_valid(&cfg) {
@@ -509,7 +617,15 @@ fn thread_main(
                 }
                 (_, Outcome::Aborted) => {}
                 _ if aborted => {}
-                (Call::Get { target, order, class, .. }, Outcome::GetOk { frame, class: c }) => {
+                (
+                    Call::Get {
+                        target,
+                        order,
+                        class,
+                        ..
+                    },
+                    Outcome::GetOk { frame, class: c },
+                ) => {
                     j.stats.gets_ok += 1;
                     let b = Block::new(*frame, *order);
                     let mut bad = false;
@@ -544,8 +660,11 @@ fn thread_main(
                     if !bad {
                         let t = b.tree();
                         let invoked = j.history[id].invoke;
-                        if let Some((since, _)) = j.offline.get(t).copied().flatten()
-                            && invoked > since
+                        // `before`: number of calls invoked when the offline request returned; a call
+                        // with a higher index was invoked after that return (event order, not the
+                        // step counter, under which the two events can tie)
+                        if let Some((since, before)) = j.offline.get(t).copied().flatten()
+                            && id >= before
                         {
                             j.report(Violation::new(
                                 "C15",
@@ -586,10 +705,15 @@ fn thread_main(
                         w.aborted = Some(AbortReason::Foreign);
                     }
                 }
-                (Call::Change { op: 2, id: Some(t), .. }, Outcome::Ok) => {
+                (
+                    Call::Change {
+                        op: 2, id: Some(t), ..
+                    },
+                    Outcome::Ok,
+                ) => {
                     j.stats.offline_ok += 1;
                     my_offline = Some(*t);
-                    j.offline[*t] = Some((w.steps, tid));
+                    j.offline[*t] = Some((w.steps, j.history.len()));
                 }
                 (Call::Change { op: 1, .. }, Outcome::Ok) => {
                     j.stats.online_ok += 1;
@@ -608,7 +732,10 @@ fn thread_main(
             if let Some(c) = w.crash.as_mut() {
                 c.ledger.ret(id, &outcome);
                 if c.enabled && w.aborted.is_none() {
-                    let label = format!("crash after thread {tid} call #{id} {call:?} returned {outcome:?} (step {})", w.steps);
+                    let label = format!(
+                        "crash after thread {tid} call #{id} {call:?} returned {outcome:?} (step {})",
+                        w.steps
+                    );
                     masked(|| c.evaluate(&w.shadow_lower, &label, true));
                 }
             }
@@ -646,7 +773,11 @@ impl ConcRunner<'_> {
         let alloc = match create(&cfg, cfg.init(), bufs) {
             Ok(Ok(a)) => a,
             _ => {
-                res.foreign = Some(Violation::new("C09", "init-failed", format!("LLFree::new({cfg:?}) failed")));
+                res.foreign = Some(Violation::new(
+                    "C09",
+                    "init-failed",
+                    format!("LLFree::new({cfg:?}) failed"),
+                ));
                 return res;
             }
         };
@@ -654,16 +785,48 @@ impl ConcRunner<'_> {
         let mut crash = Crash::new(cfg.clone(), self.side.clone());
         crash.enabled = false;
         let mut setup_id = 1 << 30;
+        let mut last_got: Option<usize> = None;
         for call in &case.setup {
+            // `Put { frame: PUT_LAST }`: give back the block of the previous setup allocation
+            // (leaves a reservation behind whose tree is entirely free again)
+            let resolved;
+            let call = match (call, last_got) {
+                (
+                    Call::Put {
+                        frame,
+                        order,
+                        class,
+                        slot,
+                    },
+                    Some(f),
+                ) if *frame == PUT_LAST => {
+                    resolved = Call::Put {
+                        frame: f,
+                        order: *order,
+                        class: *class,
+                        slot: *slot,
+                    };
+                    &resolved
+                }
+                _ => call,
+            };
             if !call.args_valid(&cfg) {
                 continue;
             }
             crash.ledger.invoke(setup_id, call);
             let out = masked(|| exec(&alloc, call));
+            last_got = match &out {
+                Outcome::GetOk { frame, .. } => Some(*frame),
+                _ => None,
+            };
             crash.ledger.ret(setup_id, &out);
             setup_id += 1;
             if let Outcome::Panic { msg, loc } = &out {
-                res.foreign = Some(Violation::new("C09", panic_signature(msg, loc), format!("setup call {call:?} panicked: {msg} at {loc}")));
+                res.foreign = Some(Violation::new(
+                    "C09",
+                    panic_signature(msg, loc),
+                    format!("setup call {call:?} panicked: {msg} at {loc}"),
+                ));
                 return res;
             }
         }
@@ -723,11 +886,10 @@ impl ConcRunner<'_> {
         } else {
             world.strat = case.strategy.clone();
         }
-        if let Strategy::Pct { .. } = &world.strat {
-            let mut prio: Vec<u32> = (0..n as u32).map(|i| 1000 + i).collect();
-            world.rng.shuffle(&mut prio);
-            world.prio = prio;
-        }
+        // PCT priorities (also needed when a PCT strategy takes over after a recorded prefix)
+        let mut prio: Vec<u32> = (0..n as u32).map(|i| 1000 + i).collect();
+        world.rng.shuffle(&mut prio);
+        world.prio = if case.prio.len() == n { case.prio.clone() } else { prio };
         world.casfail_den = case.casfail_den;
         world.casfail_replay = case.casfail_at.clone();
         world.solo_points = case.solo.clone();
@@ -754,6 +916,9 @@ impl ConcRunner<'_> {
             foreign: None,
             history: Vec::new(),
             offline: vec![None; cfg.trees()],
+            reserved: masked(|| guarded(|| tree_snapshot(&alloc, cfg.trees())))
+                .map(|s| s.iter().enumerate().filter(|(_, t)| t.2).map(|(i, _)| i).collect())
+                .unwrap_or_default(),
             stats: ConcStats::default(),
         });
         std::thread::scope(|s| {
@@ -765,7 +930,9 @@ impl ConcRunner<'_> {
                 let held = dealt[tid].clone();
                 std::thread::Builder::new()
                     .stack_size(2 * 1024 * 1024)
-                    .spawn_scoped(s, move || thread_main(tid, shared, alloc, program, held, judge))
+                    .spawn_scoped(s, move || {
+                        thread_main(tid, shared, alloc, program, held, judge)
+                    })
                     .expect("spawn");
             }
             shared.run_all();
@@ -788,7 +955,12 @@ impl ConcRunner<'_> {
         res.hash = h.finish();
         match w.aborted {
             Some(AbortReason::SoloBudget { tid, steps }) => {
-                let call = j.history.iter().rev().find(|c| c.tid == tid && c.ret.is_none()).map(|c| format!("{:?}", c.call));
+                let call = j
+                    .history
+                    .iter()
+                    .rev()
+                    .find(|c| c.tid == tid && c.ret.is_none())
+                    .map(|c| format!("{:?}", c.call));
                 j.report(Violation::new(
                     "C21",
                     "solo-budget-exceeded",
@@ -809,7 +981,12 @@ impl ConcRunner<'_> {
                 res.stats.aborted += 1;
             }
             Some(AbortReason::CallBudget { tid, steps }) => {
-                let call = j.history.iter().rev().find(|c| c.tid == tid && c.ret.is_none()).map(|c| format!("{:?}", c.call));
+                let call = j
+                    .history
+                    .iter()
+                    .rev()
+                    .find(|c| c.tid == tid && c.ret.is_none())
+                    .map(|c| format!("{:?}", c.call));
                 j.report(Violation::new(
                     "C21",
                     "call-step-budget-exceeded",
@@ -871,9 +1048,19 @@ impl ConcRunner<'_> {
                 let _ = guarded(|| llfree::Alloc::drain(&alloc));
                 for &(frame, order, class) in &case.final_probes {
                     let call = if order == usize::MAX {
-                        Call::Get { target: None, order: 0, class, slot: None }
+                        Call::Get {
+                            target: None,
+                            order: 0,
+                            class,
+                            slot: None,
+                        }
                     } else {
-                        Call::Get { target: Some(frame), order, class, slot: None }
+                        Call::Get {
+                            target: Some(frame),
+                            order,
+                            class,
+                            slot: None,
+                        }
                     };
                     if !call.args_valid(&cfg) {
                         continue;
@@ -881,14 +1068,23 @@ impl ConcRunner<'_> {
                     res.stats.final_probes += 1;
                     let out = exec(&alloc, &call);
                     match (&call, &out) {
-                        (Call::Get { target: None, .. }, Outcome::Err(_)) if model.online_free() > 0 => {
+                        (Call::Get { target: None, .. }, Outcome::Err(_))
+                            if model.online_free() > 0 =>
+                        {
                             j.report(Violation::new(
                                 "C10",
                                 "oom-after-drain-with-free-frames",
                                 format!("after the concurrent run: drain + {call:?} returned {out:?}, {} frames are free", model.online_free()),
                             ));
                         }
-                        (Call::Get { target: Some(t), order, .. }, Outcome::Err(_)) if model.get_allowed(&Block::new(*t, *order)) => {
+                        (
+                            Call::Get {
+                                target: Some(t),
+                                order,
+                                ..
+                            },
+                            Outcome::Err(_),
+                        ) if model.get_allowed(&Block::new(*t, *order)) => {
                             j.report(Violation::new(
                                 "C10",
                                 "targeted-get-of-free-block-failed",
@@ -908,7 +1104,11 @@ impl ConcRunner<'_> {
                             model.apply_get(&b);
                         }
                         (_, Outcome::Panic { msg, loc }) => {
-                            j.report(Violation::new("C09", panic_signature(msg, loc), format!("final probe {call:?} panicked: {msg} at {loc}")));
+                            j.report(Violation::new(
+                                "C09",
+                                panic_signature(msg, loc),
+                                format!("final probe {call:?} panicked: {msg} at {loc}"),
+                            ));
                             break;
                         }
                         _ => {}
@@ -955,17 +1155,27 @@ fn gen_kind(rng: &mut Rng, custom: bool) -> ClassKind {
 }
 
 fn gen_strategy(rng: &mut Rng, n: usize, expected: u64, stall_bias: bool) -> Strategy {
-    let pick = if stall_bias { rng.weighted(&[2, 3, 2, 4, 2]) } else { rng.weighted(&[4, 3, 3, 1, 3]) };
+    let pick = if stall_bias {
+        rng.weighted(&[2, 3, 2, 4, 2])
+    } else {
+        rng.weighted(&[4, 3, 3, 1, 3])
+    };
     match pick {
         0 => Strategy::Uniform,
-        4 => Strategy::AfterWrite { den: rng.range(4, 16) },
+        4 => Strategy::AfterWrite {
+            den: rng.range(4, 16),
+        },
         1 => {
             let d = rng.range(1, 3);
             Strategy::Pct {
-                change: (0..d).map(|_| rng.below(expected.max(2) as usize) as u64).collect(),
+                change: (0..d)
+                    .map(|_| rng.below(expected.max(2) as usize) as u64)
+                    .collect(),
             }
         }
-        2 => Strategy::Burst { den: rng.range(3, 12) },
+        2 => Strategy::Burst {
+            den: rng.range(3, 12),
+        },
         _ => Strategy::Stall {
             tid: rng.below(n),
             from: rng.below(expected.max(2) as usize) as u64,
@@ -984,7 +1194,7 @@ pub struct GenOpts {
 
 pub fn gen_case(rng: &mut Rng, kind: &str, o: &GenOpts) -> ConcCase {
     // thorough tier: sometimes a fourth thread
-    let n = if o.thorough && rng.chance(1, 8) {
+    let mut n = if o.thorough && rng.chance(1, 8) {
         4
     } else if rng.chance(2, 3) {
         2
@@ -992,16 +1202,30 @@ pub fn gen_case(rng: &mut Rng, kind: &str, o: &GenOpts) -> ConcCase {
         3
     };
     // with the C13 oracle on, half of the runs use the policy with unusable class pairs
-    let ck = if o.custom && rng.chance(1, 3) { ClassKind::Custom } else { gen_kind(rng, o.custom) };
+    let ck = if o.custom && rng.chance(1, 3) {
+        ClassKind::Custom
+    } else {
+        gen_kind(rng, o.custom)
+    };
     let mut setup = Vec::new();
     let mut deals = Vec::new();
     let mut programs: Vec<Vec<SOp>> = vec![Vec::new(); n];
+    let mut directed = false;
     let cfg;
     let small_orders = [0usize, 0, 0, 3, 5, 6, 7, 8];
     match kind {
         // same bitfield: single row CAS vs multi row CAS windows
         "K1" => {
-            let frames = if rng.chance(1, 2) { TREE_FRAMES } else { rng.range(1, TREE_HUGE) * HUGE_FRAMES - if rng.chance(1, 4) { rng.range(1, 70) } else { 0 } };
+            let frames = if rng.chance(1, 2) {
+                TREE_FRAMES
+            } else {
+                rng.range(1, TREE_HUGE) * HUGE_FRAMES
+                    - if rng.chance(1, 4) {
+                        rng.range(1, 70)
+                    } else {
+                        0
+                    }
+            };
             cfg = Config {
                 frames,
                 alloc_all: false,
@@ -1010,19 +1234,38 @@ pub fn gen_case(rng: &mut Rng, kind: &str, o: &GenOpts) -> ConcCase {
             };
             for _ in 0..rng.below(4) {
                 let (class, _) = gen_class_slot(rng, &cfg, true);
-                setup.push(Call::Get { target: None, order: *rng.pick(&small_orders), class, slot: None });
+                setup.push(Call::Get {
+                    target: None,
+                    order: *rng.pick(&small_orders),
+                    class,
+                    slot: None,
+                });
             }
             for i in 0..rng.below(3) {
-                deals.push(Deal { k: i, order: 0, parts: vec![(0, rng.below(n))] });
+                deals.push(Deal {
+                    k: i,
+                    order: 0,
+                    parts: vec![(0, rng.below(n))],
+                });
             }
             let same_slot = rng.chance(1, 2);
             for p in programs.iter_mut() {
                 for _ in 0..rng.range(1, 4) {
                     let (class, slot) = gen_class_slot(rng, &cfg, same_slot);
                     if rng.chance(3, 4) {
-                        p.push(SOp::Get { order: *rng.pick(&small_orders), class, slot, target: None });
+                        p.push(SOp::Get {
+                            order: *rng.pick(&small_orders),
+                            class,
+                            slot,
+                            target: None,
+                        });
                     } else {
-                        p.push(SOp::PutHeld { k: rng.below(4), sub: None, class, slot });
+                        p.push(SOp::PutHeld {
+                            k: rng.below(4),
+                            sub: None,
+                            class,
+                            slot,
+                        });
                     }
                 }
             }
@@ -1030,17 +1273,27 @@ pub fn gen_case(rng: &mut Rng, kind: &str, o: &GenOpts) -> ConcCase {
         // huge / multi huge
         "K2" => {
             cfg = Config {
-                frames: rng.range(1, 2) * TREE_FRAMES - if rng.chance(1, 4) { HUGE_FRAMES } else { 0 },
+                frames: rng.range(1, 2) * TREE_FRAMES
+                    - if rng.chance(1, 4) { HUGE_FRAMES } else { 0 },
                 alloc_all: false,
                 kind: ck,
                 slots: (0..ck.classes()).map(|_| rng.range(1, 2)).collect(),
             };
             for _ in 0..rng.below(3) {
                 let (class, _) = gen_class_slot(rng, &cfg, true);
-                setup.push(Call::Get { target: None, order: rng.range(HUGE_ORDER, TREE_ORDER), class, slot: None });
+                setup.push(Call::Get {
+                    target: None,
+                    order: rng.range(HUGE_ORDER, TREE_ORDER),
+                    class,
+                    slot: None,
+                });
             }
             for i in 0..rng.below(3) {
-                deals.push(Deal { k: i, order: HUGE_ORDER, parts: vec![(0, rng.below(n))] });
+                deals.push(Deal {
+                    k: i,
+                    order: HUGE_ORDER,
+                    parts: vec![(0, rng.below(n))],
+                });
             }
             for p in programs.iter_mut() {
                 for _ in 0..rng.range(1, 4) {
@@ -1053,9 +1306,19 @@ pub fn gen_case(rng: &mut Rng, kind: &str, o: &GenOpts) -> ConcCase {
                         } else {
                             None
                         };
-                        p.push(SOp::Get { order, class, slot, target });
+                        p.push(SOp::Get {
+                            order,
+                            class,
+                            slot,
+                            target,
+                        });
                     } else {
-                        p.push(SOp::PutHeld { k: rng.below(4), sub: None, class, slot });
+                        p.push(SOp::PutHeld {
+                            k: rng.below(4),
+                            sub: None,
+                            class,
+                            slot,
+                        });
                     }
                 }
             }
@@ -1072,7 +1335,12 @@ pub fn gen_case(rng: &mut Rng, kind: &str, o: &GenOpts) -> ConcCase {
             if !alloc_all {
                 for _ in 0..rng.range(1, 2) {
                     let (class, _) = gen_class_slot(rng, &cfg, true);
-                    setup.push(Call::Get { target: None, order: HUGE_ORDER, class, slot: None });
+                    setup.push(Call::Get {
+                        target: None,
+                        order: HUGE_ORDER,
+                        class,
+                        slot: None,
+                    });
                 }
             }
             // parts of one huge frame to different threads
@@ -1091,22 +1359,45 @@ pub fn gen_case(rng: &mut Rng, kind: &str, o: &GenOpts) -> ConcCase {
                 // bitfield without going through the split (and its known retry panic)
                 let huges = cfg.frames / HUGE_FRAMES;
                 let h = k % huges;
-                setup.push(Call::Put { frame: h * HUGE_FRAMES + HUGE_FRAMES - 1, order: 0, class: 0, slot: None });
+                setup.push(Call::Put {
+                    frame: h * HUGE_FRAMES + HUGE_FRAMES - 1,
+                    order: 0,
+                    class: 0,
+                    slot: None,
+                });
                 // the environment now holds the buddy remainder of that huge frame; its first
                 // (largest) piece is block number h again
             }
             deals.push(Deal { k, order, parts });
             if rng.chance(1, 3) {
-                deals.push(Deal { k: rng.below(4), order: 0, parts: vec![(rng.below(512), rng.below(n))] });
+                deals.push(Deal {
+                    k: rng.below(4),
+                    order: 0,
+                    parts: vec![(rng.below(512), rng.below(n))],
+                });
             }
             for p in programs.iter_mut() {
                 for _ in 0..rng.range(1, 3) {
                     let (class, slot) = gen_class_slot(rng, &cfg, false);
                     if rng.chance(3, 4) {
-                        let sub = if order > 0 && rng.chance(1, 3) { Some((rng.below(order), rng.below(8))) } else { None };
-                        p.push(SOp::PutHeld { k: rng.below(3), sub, class, slot });
+                        let sub = if order > 0 && rng.chance(1, 3) {
+                            Some((rng.below(order), rng.below(8)))
+                        } else {
+                            None
+                        };
+                        p.push(SOp::PutHeld {
+                            k: rng.below(3),
+                            sub,
+                            class,
+                            slot,
+                        });
                     } else {
-                        p.push(SOp::Get { order: *rng.pick(&small_orders), class, slot, target: None });
+                        p.push(SOp::Get {
+                            order: *rng.pick(&small_orders),
+                            class,
+                            slot,
+                            target: None,
+                        });
                     }
                 }
             }
@@ -1114,33 +1405,73 @@ pub fn gen_case(rng: &mut Rng, kind: &str, o: &GenOpts) -> ConcCase {
         // reservation churn
         "K4" => {
             cfg = Config {
-                frames: rng.range(2, 4) * TREE_FRAMES - if rng.chance(1, 3) { rng.range(1, HUGE_FRAMES - 1) } else { 0 },
+                frames: rng.range(2, 4) * TREE_FRAMES
+                    - if rng.chance(1, 3) {
+                        rng.range(1, HUGE_FRAMES - 1)
+                    } else {
+                        0
+                    },
                 alloc_all: false,
                 kind: ck,
                 slots: (0..ck.classes()).map(|_| rng.range(1, 3)).collect(),
             };
             for _ in 0..rng.below(4) {
                 let (class, slot) = gen_class_slot(rng, &cfg, false);
-                setup.push(Call::Get { target: None, order: *rng.pick(&[0usize, 0, 3, 9]), class, slot });
+                setup.push(Call::Get {
+                    target: None,
+                    order: *rng.pick(&[0usize, 0, 3, 9]),
+                    class,
+                    slot,
+                });
             }
             for i in 0..rng.below(4) {
-                deals.push(Deal { k: i, order: 99, parts: vec![(0, rng.below(n))] });
+                deals.push(Deal {
+                    k: i,
+                    order: 99,
+                    parts: vec![(0, rng.below(n))],
+                });
             }
             for p in programs.iter_mut() {
                 for _ in 0..rng.range(2, 5) {
                     let (class, slot) = gen_class_slot(rng, &cfg, false);
                     match rng.weighted(&[8, 5, 2, 2, 2, 2]) {
-                        0 => p.push(SOp::Get { order: *rng.pick(&[0usize, 0, 0, 2, 6, 9, 10]), class, slot, target: None }),
-                        1 => p.push(SOp::PutHeld { k: rng.below(4), sub: None, class, slot }),
+                        0 => p.push(SOp::Get {
+                            order: *rng.pick(&[0usize, 0, 0, 2, 6, 9, 10]),
+                            class,
+                            slot,
+                            target: None,
+                        }),
+                        1 => p.push(SOp::PutHeld {
+                            k: rng.below(4),
+                            sub: None,
+                            class,
+                            slot,
+                        }),
                         2 => p.push(SOp::Drain),
                         3 => p.push(SOp::Reclass {
-                            id: if rng.chance(1, 2) { Some(rng.below(cfg.trees())) } else { None },
-                            mclass: if rng.chance(1, 2) { Some(rng.below(cfg.slots.len()) as u8) } else { None },
+                            id: if rng.chance(1, 2) {
+                                Some(rng.below(cfg.trees()))
+                            } else {
+                                None
+                            },
+                            mclass: if rng.chance(1, 2) {
+                                Some(rng.below(cfg.slots.len()) as u8)
+                            } else {
+                                None
+                            },
                             mfree: *rng.pick(&[0, 1, TREE_FRAMES / 2, TREE_FRAMES]),
                             class: rng.below(cfg.slots.len()) as u8,
                         }),
-                        4 => p.push(SOp::Offline { tree: rng.below(cfg.trees()) }),
-                        _ => p.push(SOp::OnlineOwn { class: if rng.chance(1, 2) { Some(rng.below(cfg.slots.len()) as u8) } else { None } }),
+                        4 => p.push(SOp::Offline {
+                            tree: rng.below(cfg.trees()),
+                        }),
+                        _ => p.push(SOp::OnlineOwn {
+                            class: if rng.chance(1, 2) {
+                                Some(rng.below(cfg.slots.len()) as u8)
+                            } else {
+                                None
+                            },
+                        }),
                     }
                 }
                 if p.iter().any(|o| matches!(o, SOp::Offline { .. })) {
@@ -1151,7 +1482,12 @@ pub fn gen_case(rng: &mut Rng, kind: &str, o: &GenOpts) -> ConcCase {
         // near exhaustion: sync / steal / demote and their undo paths
         "K5" => {
             cfg = Config {
-                frames: rng.range(1, 3) * TREE_FRAMES - if rng.chance(1, 3) { rng.range(1, HUGE_FRAMES - 1) } else { 0 },
+                frames: rng.range(1, 3) * TREE_FRAMES
+                    - if rng.chance(1, 3) {
+                        rng.range(1, HUGE_FRAMES - 1)
+                    } else {
+                        0
+                    },
                 alloc_all: true,
                 kind: ck,
                 slots: (0..ck.classes()).map(|_| rng.range(1, 2)).collect(),
@@ -1168,17 +1504,36 @@ pub fn gen_case(rng: &mut Rng, kind: &str, o: &GenOpts) -> ConcCase {
                 if span == 0 {
                     continue;
                 }
-                setup.push(Call::Put { frame: base + rng.below(span) * len, order, class, slot });
+                setup.push(Call::Put {
+                    frame: base + rng.below(span) * len,
+                    order,
+                    class,
+                    slot,
+                });
             }
             for i in 0..rng.below(3) {
-                deals.push(Deal { k: rng.below(8), order: *rng.pick(&[0usize, 0, 3]), parts: vec![(rng.below(512), i % n)] });
+                deals.push(Deal {
+                    k: rng.below(8),
+                    order: *rng.pick(&[0usize, 0, 3]),
+                    parts: vec![(rng.below(512), i % n)],
+                });
             }
             for p in programs.iter_mut() {
                 for _ in 0..rng.range(2, 5) {
                     let (class, slot) = gen_class_slot(rng, &cfg, false);
                     match rng.weighted(&[10, 4, 1]) {
-                        0 => p.push(SOp::Get { order: *rng.pick(&[0usize, 0, 0, 0, 1, 3, 9]), class, slot, target: None }),
-                        1 => p.push(SOp::PutHeld { k: rng.below(4), sub: None, class, slot }),
+                        0 => p.push(SOp::Get {
+                            order: *rng.pick(&[0usize, 0, 0, 0, 1, 3, 9]),
+                            class,
+                            slot,
+                            target: None,
+                        }),
+                        1 => p.push(SOp::PutHeld {
+                            k: rng.below(4),
+                            sub: None,
+                            class,
+                            slot,
+                        }),
                         _ => p.push(SOp::Drain),
                     }
                 }
@@ -1196,21 +1551,144 @@ pub fn gen_case(rng: &mut Rng, kind: &str, o: &GenOpts) -> ConcCase {
             };
             for _ in 0..rng.below(3) {
                 let (class, slot) = gen_class_slot(rng, &cfg, false);
-                setup.push(Call::Get { target: None, order: *rng.pick(&[0usize, 3, 9]), class, slot });
+                setup.push(Call::Get {
+                    target: None,
+                    order: *rng.pick(&[0usize, 3, 9]),
+                    class,
+                    slot,
+                });
             }
             for p in programs.iter_mut() {
                 for _ in 0..rng.range(2, 4) {
                     let (class, slot) = gen_class_slot(rng, &cfg, false);
                     match rng.weighted(&[10, 3, 2, 1]) {
-                        0 => p.push(SOp::Get { order: *rng.pick(&[0usize, 0, 1, 5, 9]), class, slot, target: None }),
+                        0 => p.push(SOp::Get {
+                            order: *rng.pick(&[0usize, 0, 1, 5, 9]),
+                            class,
+                            slot,
+                            target: None,
+                        }),
                         1 => p.push(SOp::Reclass {
-                            id: if rng.chance(2, 3) { Some(rng.below(cfg.trees())) } else { None },
-                            mclass: if rng.chance(1, 3) { Some(rng.below(cfg.slots.len()) as u8) } else { None },
+                            id: if rng.chance(2, 3) {
+                                Some(rng.below(cfg.trees()))
+                            } else {
+                                None
+                            },
+                            mclass: if rng.chance(1, 3) {
+                                Some(rng.below(cfg.slots.len()) as u8)
+                            } else {
+                                None
+                            },
                             mfree: *rng.pick(&[0, 0, 1, TREE_FRAMES]),
                             class: rng.below(cfg.slots.len()) as u8,
                         }),
                         2 => p.push(SOp::Drain),
-                        _ => p.push(SOp::PutHeld { k: rng.below(3), sub: None, class, slot }),
+                        _ => p.push(SOp::PutHeld {
+                            k: rng.below(3),
+                            sub: None,
+                            class,
+                            slot,
+                        }),
+                    }
+                }
+            }
+        }
+        // offline races: slots hold reservations of entirely free trees (allocate + free through the
+        // slot); drains, offline requests and allocations through the same slots meet
+        "K9" => {
+            let trees = rng.range(2, 4);
+            cfg = Config {
+                frames: trees * TREE_FRAMES,
+                alloc_all: false,
+                kind: ck,
+                slots: (0..ck.classes())
+                    .map(|_| rng.range(1, (trees - 1).min(2)))
+                    .collect(),
+            };
+            let mut pairs: Vec<(u8, usize)> = Vec::new();
+            for _ in 0..rng.range(1, 2) {
+                let class = rng.below(cfg.slots.len()) as u8;
+                let slot = rng.below(cfg.slots[class as usize]);
+                let order = *rng.pick(&[0usize, 0, 3, 9]);
+                setup.push(Call::Get {
+                    target: None,
+                    order,
+                    class,
+                    slot: Some(slot),
+                });
+                if rng.chance(5, 6) {
+                    setup.push(Call::Put {
+                        frame: PUT_LAST,
+                        order,
+                        class,
+                        slot: Some(slot),
+                    });
+                }
+                pairs.push((class, slot));
+            }
+            if rng.chance(1, 2) {
+                // directed variant: one thread drains, one asks for the reserved tree to go
+                // offline, one allocates through the slot - each with little else to do
+                n = 3;
+                directed = true;
+                programs = vec![Vec::new(); 3];
+                let (class, slot) = pairs[0];
+                let first = rng.below(3);
+                programs[first].push(SOp::Drain);
+                for _ in 0..rng.range(1, 2) {
+                    programs[(first + 1) % 3].push(SOp::Offline {
+                        tree: if rng.chance(5, 6) {
+                            OFFLINE_RESERVED
+                        } else {
+                            rng.below(trees)
+                        },
+                    });
+                }
+                programs[(first + 2) % 3].push(SOp::Get {
+                    order: *rng.pick(&[0usize, 0, 3, 9]),
+                    class,
+                    slot: Some(slot),
+                    target: None,
+                });
+                if rng.chance(1, 3) {
+                    let t = rng.below(3);
+                    programs[t].push(SOp::Drain);
+                }
+                // mostly the tree stays offline to the end (the final judge knows offline trees)
+                if rng.chance(1, 3) {
+                    programs[(first + 1) % 3].push(SOp::OnlineOwn { class: None });
+                }
+            } else {
+                for p in programs.iter_mut() {
+                    for _ in 0..rng.range(1, 3) {
+                        let (class, slot) = *rng.pick(&pairs);
+                        match rng.weighted(&[5, 4, 3, 1, 1]) {
+                            0 => p.push(SOp::Get {
+                                order: *rng.pick(&[0usize, 0, 0, 3, 9]),
+                                class,
+                                slot: Some(slot),
+                                target: None,
+                            }),
+                            // the first reservations of a fresh allocator go to the first trees
+                            1 => p.push(SOp::Offline {
+                                tree: if rng.chance(3, 4) {
+                                    OFFLINE_RESERVED + rng.below(pairs.len())
+                                } else {
+                                    rng.below(trees)
+                                },
+                            }),
+                            2 => p.push(SOp::Drain),
+                            3 => p.push(SOp::PutHeld {
+                                k: rng.below(2),
+                                sub: None,
+                                class,
+                                slot: Some(slot),
+                            }),
+                            _ => p.push(SOp::OnlineOwn { class: None }),
+                        }
+                    }
+                    if p.iter().any(|o| matches!(o, SOp::Offline { .. })) {
+                        p.push(SOp::OnlineOwn { class: None });
                     }
                 }
             }
@@ -1219,7 +1697,12 @@ pub fn gen_case(rng: &mut Rng, kind: &str, o: &GenOpts) -> ConcCase {
         // freed into its global counter; the owner syncs while others drain / swap / steal the slot
         "K7" => {
             cfg = Config {
-                frames: rng.range(1, 2) * TREE_FRAMES - if rng.chance(1, 4) { rng.range(1, HUGE_FRAMES - 1) } else { 0 },
+                frames: rng.range(1, 2) * TREE_FRAMES
+                    - if rng.chance(1, 4) {
+                        rng.range(1, HUGE_FRAMES - 1)
+                    } else {
+                        0
+                    },
                 alloc_all: true,
                 kind: ck,
                 slots: (0..ck.classes()).map(|_| rng.range(1, 2)).collect(),
@@ -1247,33 +1730,76 @@ pub fn gen_case(rng: &mut Rng, kind: &str, o: &GenOpts) -> ConcCase {
             };
             for _ in 0..k {
                 if let Some(f) = pick(rng, &mut used) {
-                    setup.push(Call::Put { frame: f, order, class, slot: None });
+                    setup.push(Call::Put {
+                        frame: f,
+                        order,
+                        class,
+                        slot: None,
+                    });
                 }
             }
             let keep = rng.below(2);
             for _ in 0..k.saturating_sub(keep) {
-                setup.push(Call::Get { target: None, order, class, slot: Some(slot) });
+                setup.push(Call::Get {
+                    target: None,
+                    order,
+                    class,
+                    slot: Some(slot),
+                });
             }
             // more frames into the global counter of the now reserved tree
             for _ in 0..rng.range(1, 2) {
                 if let Some(f) = pick(rng, &mut used) {
-                    setup.push(Call::Put { frame: f, order, class, slot: None });
+                    setup.push(Call::Put {
+                        frame: f,
+                        order,
+                        class,
+                        slot: None,
+                    });
                 }
             }
             for i in 0..rng.below(3) {
-                deals.push(Deal { k: rng.below(6), order: *rng.pick(&[0usize, 0, 3]), parts: vec![(rng.below(512), i % n)] });
+                deals.push(Deal {
+                    k: rng.below(6),
+                    order: *rng.pick(&[0usize, 0, 3]),
+                    parts: vec![(rng.below(512), i % n)],
+                });
             }
             for (t, p) in programs.iter_mut().enumerate() {
                 if t == 0 {
-                    p.push(SOp::Get { order, class, slot: Some(slot), target: None });
+                    p.push(SOp::Get {
+                        order,
+                        class,
+                        slot: Some(slot),
+                        target: None,
+                    });
                 }
                 for _ in 0..rng.range(1, 3) {
                     let (c2, s2) = gen_class_slot(rng, &cfg, false);
                     match rng.weighted(&[4, 4, 3, 2]) {
                         0 => p.push(SOp::Drain),
-                        1 => p.push(SOp::Get { order: *rng.pick(&[0usize, 0, order, 1]), class, slot: Some(slot), target: None }),
-                        2 => p.push(SOp::Get { order: *rng.pick(&[0usize, 0, 3]), class: c2, slot: s2, target: None }),
-                        _ => p.push(SOp::PutHeld { k: rng.below(3), sub: None, class: c2, slot: if rng.chance(1, 2) { Some(slot).filter(|_| c2 == class) } else { None } }),
+                        1 => p.push(SOp::Get {
+                            order: *rng.pick(&[0usize, 0, order, 1]),
+                            class,
+                            slot: Some(slot),
+                            target: None,
+                        }),
+                        2 => p.push(SOp::Get {
+                            order: *rng.pick(&[0usize, 0, 3]),
+                            class: c2,
+                            slot: s2,
+                            target: None,
+                        }),
+                        _ => p.push(SOp::PutHeld {
+                            k: rng.below(3),
+                            sub: None,
+                            class: c2,
+                            slot: if rng.chance(1, 2) {
+                                Some(slot).filter(|_| c2 == class)
+                            } else {
+                                None
+                            },
+                        }),
                     }
                 }
             }
@@ -1293,8 +1819,17 @@ pub fn gen_case(rng: &mut Rng, kind: &str, o: &GenOpts) -> ConcCase {
             // somebody holds the block and frees it while others try to allocate exactly it
             let held_first = rng.chance(1, 2);
             if held_first {
-                setup.push(Call::Get { target: Some(f), order, class: 0, slot: None });
-                deals.push(Deal { k: 0, order: 99, parts: vec![(0, 0)] });
+                setup.push(Call::Get {
+                    target: Some(f),
+                    order,
+                    class: 0,
+                    slot: None,
+                });
+                deals.push(Deal {
+                    k: 0,
+                    order: 99,
+                    parts: vec![(0, 0)],
+                });
             }
             for (t, p) in programs.iter_mut().enumerate() {
                 for _ in 0..rng.range(1, 3) {
@@ -1308,17 +1843,44 @@ pub fn gen_case(rng: &mut Rng, kind: &str, o: &GenOpts) -> ConcCase {
                                 _ => rng.range(order, TREE_ORDER),
                             };
                             let l2 = 1usize << o2;
-                            let f2 = if o2 <= order { f + rng.below(len / l2) * l2 } else { f / l2 * l2 };
+                            let f2 = if o2 <= order {
+                                f + rng.below(len / l2) * l2
+                            } else {
+                                f / l2 * l2
+                            };
                             if f2 + l2 <= cfg.frames {
-                                p.push(SOp::Get { order: o2, class, slot, target: Some(f2) });
+                                p.push(SOp::Get {
+                                    order: o2,
+                                    class,
+                                    slot,
+                                    target: Some(f2),
+                                });
                             }
                         }
-                        1 => p.push(SOp::Get { order: *rng.pick(&[0usize, order]), class, slot, target: None }),
-                        _ => p.push(SOp::PutHeld { k: rng.below(2), sub: None, class, slot }),
+                        1 => p.push(SOp::Get {
+                            order: *rng.pick(&[0usize, order]),
+                            class,
+                            slot,
+                            target: None,
+                        }),
+                        _ => p.push(SOp::PutHeld {
+                            k: rng.below(2),
+                            sub: None,
+                            class,
+                            slot,
+                        }),
                     }
                 }
                 if held_first && t == 0 && !p.iter().any(|o| matches!(o, SOp::PutHeld { .. })) {
-                    p.insert(0, SOp::PutHeld { k: 0, sub: None, class: 0, slot: None });
+                    p.insert(
+                        0,
+                        SOp::PutHeld {
+                            k: 0,
+                            sub: None,
+                            class: 0,
+                            slot: None,
+                        },
+                    );
                 }
             }
         }
@@ -1338,9 +1900,15 @@ pub fn gen_case(rng: &mut Rng, kind: &str, o: &GenOpts) -> ConcCase {
         }
     }
     let total_ops: usize = programs.iter().map(Vec::len).sum();
-    let expected = 22 * total_ops as u64;
+    // the range from which change points / stall points / solo points are drawn: measured runs
+    // take 5..10 atomic steps per operation; mostly aim inside the run, sometimes wider
+    let expected = if rng.chance(2, 3) { 9 } else { 22 } * total_ops as u64;
     let strategy = gen_strategy(rng, n, expected, o.stall_bias);
-    let casfail_den = if rng.chance(1, 3) { rng.range(4, 20) } else { 0 };
+    let casfail_den = if rng.chance(1, 3) {
+        rng.range(4, 20)
+    } else {
+        0
+    };
     let mut solo = Vec::new();
     for _ in 0..o.solo_points {
         solo.push((rng.below(expected.max(2) as usize) as u64, rng.below(n)));
@@ -1353,7 +1921,11 @@ pub fn gen_case(rng: &mut Rng, kind: &str, o: &GenOpts) -> ConcCase {
             let order = *rng.pick(&[0usize, 0, 3, 6, 9, TREE_ORDER]);
             let len = 1usize << order;
             if len <= cfg.frames {
-                final_probes.push((rng.below(cfg.frames / len) * len, order, rng.below(cfg.slots.len()) as u8));
+                final_probes.push((
+                    rng.below(cfg.frames / len) * len,
+                    order,
+                    rng.below(cfg.slots.len()) as u8,
+                ));
             }
         }
     }
@@ -1361,7 +1933,11 @@ pub fn gen_case(rng: &mut Rng, kind: &str, o: &GenOpts) -> ConcCase {
         kind: kind.to_string(),
         cfg,
         at_end: rng.chance(1, 2),
-        lower_fill: if rng.chance(1, 2) { 0 } else { rng.below(256) as u8 },
+        lower_fill: if rng.chance(1, 2) {
+            0
+        } else {
+            rng.below(256) as u8
+        },
         setup,
         deals,
         programs,
@@ -1371,10 +1947,26 @@ pub fn gen_case(rng: &mut Rng, kind: &str, o: &GenOpts) -> ConcCase {
         casfail_den,
         casfail_at: None,
         // systematic solo windows are expensive (steps x threads re-executions): rare in the quick tier
-        solo_sweep: o.solo_points > 0 && total_ops <= 5 && rng.chance(1, if o.thorough { 60 } else { 600 }),
+        solo_sweep: o.solo_points > 0
+            && total_ops <= 5
+            && rng.chance(1, if o.thorough { 60 } else { 600 }),
         solo,
         final_probes,
         tail: None,
+        // every depth-1 PCT schedule of a small case: n! priority orders x steps re-executions
+        pct_sweep: total_ops <= 6
+            && n <= 3
+            && rng.chance(
+                1,
+                if directed {
+                    12
+                } else if o.thorough {
+                    50
+                } else {
+                    250
+                },
+            ),
+        prio: Vec::new(),
     }
 }
 
@@ -1385,6 +1977,10 @@ pub fn gen_case(rng: &mut Rng, kind: &str, o: &GenOpts) -> ConcCase {
 // shard is a pure function of (VERIF_SEED, shard), independent of the number of worker processes.
 
 pub const KE_SHARDS: u64 = 64;
+/// setup marker: `Put { frame: PUT_LAST, .. }` frees the block of the preceding setup allocation
+pub const PUT_LAST: usize = 1 << 40;
+/// `SOp::Offline { tree: OFFLINE_RESERVED + k }`: the k-th tree reserved when the threads start
+pub const OFFLINE_RESERVED: usize = 1000;
 
 #[derive(Default)]
 pub struct Evolve {
@@ -1419,17 +2015,30 @@ fn rand_op(rng: &mut Rng, cfg: &Config) -> SOp {
             } else {
                 None
             };
-            SOp::Get { order, class, slot, target }
+            SOp::Get {
+                order,
+                class,
+                slot,
+                target,
+            }
         }
         1 => SOp::PutHeld {
             k: rng.below(4),
-            sub: if rng.chance(1, 4) { Some((rng.below(3), rng.below(8))) } else { None },
+            sub: if rng.chance(1, 4) {
+                Some((rng.below(3), rng.below(8)))
+            } else {
+                None
+            },
             class,
             slot,
         },
         2 => SOp::Drain,
         _ => SOp::Reclass {
-            id: if rng.chance(1, 2) { Some(rng.below(cfg.trees().max(1))) } else { None },
+            id: if rng.chance(1, 2) {
+                Some(rng.below(cfg.trees().max(1)))
+            } else {
+                None
+            },
             mclass: None,
             mfree: *rng.pick(&[0, 1, TREE_FRAMES]),
             class: rng.below(cfg.slots.len()) as u8,
@@ -1443,17 +2052,23 @@ impl Evolve {
         let entry = self.shards.entry(index % KE_SHARDS).or_default();
         if entry.0.is_empty() || rng.chance(1, 4) {
             self.fresh += 1;
-            let fam = *rng.pick(&["K1", "K2", "K3", "K4", "K5", "K6", "K7", "K8"]);
+            let fam = *rng.pick(&["K1", "K2", "K3", "K4", "K5", "K6", "K7", "K8", "K9"]);
             return gen_case(&mut rng, fam, o);
         }
         self.mutated += 1;
         let mut c = entry.0[rng.below(entry.0.len())].clone();
         c.kind = "KE".to_string();
         c.sched_seed = rng.next();
-        let tails = [Strategy::Uniform, Strategy::Burst { den: 6 }, Strategy::AfterWrite { den: 8 }];
+        let tails = [
+            Strategy::Uniform,
+            Strategy::Burst { den: 6 },
+            Strategy::AfterWrite { den: 8 },
+        ];
         c.tail = Some(rng.pick(&tails).clone());
         c.solo.clear();
         c.solo_sweep = false;
+        c.pct_sweep = false;
+        c.prio.clear();
         match rng.below(5) {
             // recorded prefix, seeded tail
             0 | 1 => {
@@ -1465,7 +2080,8 @@ impl Evolve {
                 if !c.schedule.is_empty() {
                     let p = rng.below(c.schedule.len());
                     let n = c.programs.len() as u8;
-                    c.schedule[p] = (c.schedule[p] + 1 + rng.below(n.max(2) as usize - 1) as u8) % n.max(1);
+                    c.schedule[p] =
+                        (c.schedule[p] + 1 + rng.below(n.max(2) as usize - 1) as u8) % n.max(1);
                     c.schedule.truncate(p + 1);
                 }
             }
@@ -1494,9 +2110,14 @@ impl Evolve {
                 c.schedule.clear();
                 c.tail = None;
                 let total: usize = c.programs.iter().map(Vec::len).sum();
-                c.strategy = gen_strategy(&mut rng, c.programs.len(), 22 * total as u64, o.stall_bias);
+                c.strategy =
+                    gen_strategy(&mut rng, c.programs.len(), 22 * total as u64, o.stall_bias);
                 c.casfail_at = None;
-                c.casfail_den = if rng.chance(1, 2) { rng.range(3, 12) } else { 0 };
+                c.casfail_den = if rng.chance(1, 2) {
+                    rng.range(3, 12)
+                } else {
+                    0
+                };
             }
         }
         if c.schedule.is_empty() && c.tail.is_some() {
@@ -1506,7 +2127,10 @@ impl Evolve {
         if o.solo_points > 0 {
             let total: usize = c.programs.iter().map(Vec::len).sum();
             for _ in 0..o.solo_points {
-                c.solo.push((rng.below(22 * total.max(1)) as u64, rng.below(c.programs.len())));
+                c.solo.push((
+                    rng.below(22 * total.max(1)) as u64,
+                    rng.below(c.programs.len()),
+                ));
             }
             c.solo.sort();
         }
